@@ -70,6 +70,16 @@ class Model:
         self.maybe_blobs.discard(intent.digest)
         self.acked += 1
 
+    def ack_overlapping(self, intent):
+        """acknowledged while another update ran side by side (mutual exclusion broken by a fault): the entry
+        exists, but which of the concurrent writers wrote last is not known to the model"""
+        new = (copy.deepcopy(intent.content), intent.digest)
+        alts = [a for a in self.prime.get(intent.key, []) if a is ABSENT or a[1] != new[1]]
+        self.prime[intent.key] = alts + [new] if any(a is not ABSENT for a in alts) else [new]
+        self.blobs.add(intent.digest)
+        self.maybe_blobs.discard(intent.digest)
+        self.acked += 1
+
     def maybe(self, intent):
         """the set may or may not have been applied"""
         alts = list(self.prime.get(intent.key, [ABSENT]))
